@@ -218,8 +218,42 @@ fn c02_core(ctx: &mut Ctx) {
     let mut g = RuleGen::new();
     g.probes = 0;
     g.poison = 0;
+    let junk = [" ", "\t", "\n", "\u{A0}", "\u{200B}", "\u{FEFF}", "\u{301}", "_", "-", ".", "$", "0", "s", "S", "=", "!", "<", ">", "?", ":", "\u{0}", "é", "\u{FF1D}"];
     for _ in 0..n {
         let dd = rand_data(&mut ctx.rng, 3, 10, &mut 0);
+        if ctx.rng.chance(1, 4) {
+            // a randomly mutated operator name is (almost always) not an operator name
+            let op = *ctx.rng.pick(&ops);
+            let mut cs: Vec<String> = op.chars().map(|c| c.to_string()).collect();
+            for _ in 0..1 + ctx.rng.below(2) {
+                let k = ctx.rng.below(cs.len() + 1);
+                match ctx.rng.below(5) {
+                    0 if !cs.is_empty() => {
+                        cs.remove(k.min(cs.len() - 1));
+                    }
+                    1 if !cs.is_empty() => {
+                        let i = k.min(cs.len() - 1);
+                        cs[i] = if ctx.rng.chance(1, 2) { cs[i].to_uppercase() } else { ctx.rng.pick(&junk).to_string() };
+                    }
+                    2 if cs.len() >= 2 => {
+                        let i = k.min(cs.len() - 2);
+                        cs.swap(i, i + 1);
+                    }
+                    3 => {
+                        let other = *ctx.rng.pick(&ops);
+                        cs.insert(k.min(cs.len()), other.to_string());
+                    }
+                    _ => cs.insert(k.min(cs.len()), ctx.rng.pick(&junk).to_string()),
+                }
+            }
+            let key: String = cs.concat();
+            if !refsem::is_operator(&key) {
+                let n_args = ctx.rng.below(4);
+                let args = if ctx.rng.chance(1, 3) { json!({"log": "LEAK-mut"}) } else { Value::Array(valid_tuple(op, n_args)) };
+                c02_literal(ctx, &obj(vec![(key, args)]), &[dd], "mutated-operator-name");
+                continue;
+            }
+        }
         if ctx.rng.chance(1, 2) {
             // a random non-rule value: multi-key / unknown-key objects with operation-shaped members
             let mut v = rand_value(&mut ctx.rng, 3);
